@@ -635,68 +635,99 @@ impl Ctx {
         }
     }
 
-    /// proptest-driven run: `n` cases from `strategy`, shrinking on failure.
-    pub fn run_prop<C: Case, S: Strategy<Value = C>>(&mut self, sub: &Sub<C>, strategy: S, n: u32) {
+    /// proptest-driven run: `n` cases from the strategy built by `make`, shrinking on failure.
+    /// The cases are split over parallel streams, each with its own runner seeded from
+    /// (VERIF_SEED, property, sub-check, stream); journaled sub-checks use a single stream.
+    pub fn run_prop<C: Case, S: Strategy<Value = C>>(&mut self, sub: &Sub<C>, make: impl Fn() -> S + Sync, n: u32) {
         if self.sub_failed(sub.name) {
             return;
         }
         let t = Instant::now();
         let si = self.stat_mut(sub.name, sub.rule);
-        let seed = mix(self.seed, self.prop, sub.name);
-        let config = Config {
-            cases: n,
-            failure_persistence: None,
-            max_shrink_iters: 4096,
-            max_global_rejects: 1_000_000,
-            ..Config::default()
-        };
-        let mut runner = TestRunner::new_with_rng(config, TestRng::from_seed(RngAlgorithm::ChaCha, &seed));
-        let stat = Mutex::new(SubStat::default());
-        let failed = AtomicBool::new(false);
+        let streams: u32 = if sub.journal { 1 } else { (n / 256).clamp(1, 16) };
+        let per = (n + streams - 1) / streams;
+        let base_seed = self.seed;
+        let prop = self.prop;
+        let layer = self.layer.clone();
         let journal = Mutex::new(&mut self.journal);
-        let last_msg: Mutex<Option<String>> = Mutex::new(None);
-        let result = runner.run(&strategy, |case| {
-            if sub.journal {
-                journal.lock().unwrap().write(sub.name, &case.encode());
-            }
-            let mut obs = Obs::default();
-            match exec_case(sub, &case, &mut obs) {
-                Exec::Pass | Exec::Discard => {
-                    if !failed.load(Ordering::Relaxed) {
-                        stat.lock().unwrap().record(&case, &obs);
+        let any_failed = AtomicBool::new(false);
+        let results: Vec<(SubStat, Option<Failure>, Option<String>)> = (0..streams)
+            .into_par_iter()
+            .map(|k| {
+                let seed = mix(base_seed, prop, &format!("{}/{}/{}", sub.name, layer, k));
+                let config = Config {
+                    cases: per,
+                    failure_persistence: None,
+                    max_shrink_iters: 4096,
+                    max_global_rejects: 1_000_000,
+                    max_local_rejects: 1_000_000,
+                    ..Config::default()
+                };
+                let mut runner = TestRunner::new_with_rng(config, TestRng::from_seed(RngAlgorithm::ChaCha, &seed));
+                let stat = RefCell::new(SubStat::default());
+                let failed = std::cell::Cell::new(false);
+                let strategy = make();
+                let result = runner.run(&strategy, |case| {
+                    if !failed.get() && any_failed.load(Ordering::Relaxed) {
+                        // another stream already found a failure: finish quickly
+                        return Ok(());
                     }
-                    Ok(())
-                }
-                Exec::Fail(msg) => {
-                    if !failed.swap(true, Ordering::Relaxed) {
-                        stat.lock().unwrap().evaluations += 1;
+                    if sub.journal {
+                        journal.lock().unwrap().write(sub.name, &case.encode());
                     }
-                    *last_msg.lock().unwrap() = Some(msg.clone());
-                    Err(TestCaseError::fail(msg))
+                    let mut obs = Obs::default();
+                    match exec_case(sub, &case, &mut obs) {
+                        Exec::Pass | Exec::Discard => {
+                            if !failed.get() {
+                                stat.borrow_mut().record(&case, &obs);
+                            }
+                            Ok(())
+                        }
+                        Exec::Fail(msg) => {
+                            if !failed.replace(true) {
+                                stat.borrow_mut().evaluations += 1;
+                                any_failed.store(true, Ordering::Relaxed);
+                            }
+                            Err(TestCaseError::fail(msg))
+                        }
+                    }
+                });
+                let st = stat.into_inner();
+                match result {
+                    Ok(()) => (st, None, None),
+                    Err(TestError::Fail(reason, case)) => {
+                        let mut obs = Obs::default();
+                        let msg = match exec_case(sub, &case, &mut obs) {
+                            Exec::Fail(m) => m,
+                            _ => format!("{} (minimal case did not fail when re-run)", reason),
+                        };
+                        (st, Some(Failure { case: case.encode(), message: msg, index: k as u64 }), None)
+                    }
+                    Err(TestError::Abort(reason)) => (st, None, Some(format!("{}: proptest aborted: {}", sub.name, reason))),
                 }
-            }
-        });
+            })
+            .collect();
         drop(journal);
         if sub.journal {
             self.journal.clear();
         }
-        let st = stat.into_inner().unwrap();
-        self.subs[si].merge(st);
+        let mut failure: Option<Failure> = None;
+        for (st, f, note) in results {
+            self.subs[si].merge(st);
+            if let Some(f) = f {
+                // prefer the smallest encoding among the streams' minimal cases
+                let better = failure.as_ref().map_or(true, |g| f.case.to_string().len() < g.case.to_string().len());
+                if better {
+                    failure = Some(f);
+                }
+            }
+            if let Some(n) = note {
+                self.note(n);
+            }
+        }
         self.subs[si].wall_s += t.elapsed().as_secs_f64();
-        match result {
-            Ok(()) => {}
-            Err(TestError::Fail(reason, case)) => {
-                // re-run the minimal case to get its own message
-                let mut obs = Obs::default();
-                let msg = match exec_case(sub, &case, &mut obs) {
-                    Exec::Fail(m) => m,
-                    _ => format!("{} (minimal case did not fail when re-run)", reason),
-                };
-                self.report_failure(sub.name, Failure { case: case.encode(), message: msg, index: 0 });
-            }
-            Err(TestError::Abort(reason)) => {
-                self.note(format!("{}: proptest aborted: {}", sub.name, reason));
-            }
+        if let Some(f) = failure {
+            self.report_failure(sub.name, f);
         }
     }
 
